@@ -163,6 +163,9 @@ define_function(telfhash)
   tlsh_final(tlsh, (const unsigned char*) sstr->str, sstr->len, 0);
 
   const char* telfhash = tlsh_get_hash(tlsh, true);
+  if (!telfhash)
+    goto cleanup;
+
   elf->telfhash = yr_strdup(telfhash);  // cache it
   if (!elf->telfhash)
     goto cleanup;
